@@ -173,7 +173,7 @@ func spellings(name string) []string {
 
 func isKeyword(s string) bool {
 	switch s {
-	case "var", "def", "eval", "print", "bind", "true", "false", "nil", "not", "and", "or", "TYPE", "NAME":
+	case "var", "def", "eval", "print", "bind", "true", "false", "nil", "not", "and", "or", "NAME":
 		return true
 	}
 	return false
@@ -420,7 +420,12 @@ func c05Exec(cs fw.Case) *fw.Fail {
 				t2.Elem().Set(reflect.MakeSlice(target.Elem().Type(), 2, 5))
 			}
 			txt := src.String()
-			ferr := bcl.UnmarshalFile(impl.NewScriptFile(txt, impl.Chunks(len(txt)/3, len(txt)/3)), t2.Interface(), bcl.OptOutput(&out), bcl.OptLogger(&log))
+			script := impl.Chunks(len(txt)/3, len(txt)/3)
+			if len(c.Vals)%2 == 1 {
+				// the last piece arrives together with io.EOF
+				script = []impl.Answer{{N: len(txt) / 2}, {N: len(txt) - len(txt)/2, Err: "EOF"}}
+			}
+			ferr := bcl.UnmarshalFile(impl.NewScriptFile(txt, script), t2.Interface(), bcl.OptOutput(&out), bcl.OptLogger(&log))
 			if ferr != nil {
 				return fw.Failf("UnmarshalFile succeeds for\n"+txt, "error: %v (log %q)", ferr, log.String())
 			}
@@ -540,7 +545,7 @@ func c05Shapes(thorough bool) []shapeSpec {
 			out = append(out, shapeSpec{Fields: outer})
 		}
 	}
-	nameSets := [][]string{{"X"}, {"Ab"}, {"FooBar"}, {"A1"}, {"X", "Ab"}, {"FooBar", "A1"}, {"Ab", "X"}, {"X", "Ab", "FooBar"}, {"A1", "FooBar", "X"}}
+	nameSets := [][]string{{"X"}, {"Ab"}, {"FooBar"}, {"A1"}, {"Type"}, {"Type", "Namex"}, {"X", "Ab"}, {"FooBar", "A1"}, {"Ab", "X"}, {"X", "Ab", "FooBar"}, {"A1", "FooBar", "X"}}
 	for _, names := range nameSets {
 		k := len(names)
 		idx := make([]int, k)
